@@ -583,16 +583,16 @@ func (tree *Rtree) nearestNeighbors(k int, p geom.Point, n *node,
 			dists, nearest = insertNearest(k, dists, nearest, dist, e.obj)
 		}
 	} else {
-		branches, branchDists := sortEntries(p, n.entries)
-		for i, e := range branches {
+		branches, _ := sortEntries(p, n.entries)
+		for _, e := range branches {
 			// MINMAXDIST pruning only guarantees one object per branch, so it
 			// is not valid for k > 1; a branch can be skipped only when it is
-			// farther away than the current k-th best candidate.
+			// farther away than the current k-th best candidate. (The later
+			// branches are still looked at: they are sorted by squared
+			// distance, and squares that underflow to zero or overflow to
+			// +Inf do not order them.)
 			if k > 0 && boxDist(p, e.bb) > dists[k-1] {
-				if math.IsInf(branchDists[i], 1) {
-					continue // the squared distances overflowed: the branches are not in order
-				}
-				break
+				continue
 			}
 			nearest, dists = tree.nearestNeighbors(k, p, e.child, dists, nearest)
 		}
